@@ -250,3 +250,19 @@ def run(ctx, rep, tier):
             probs = check_append_path(evs, v)
             rep.check(not probs, "C06.h", ACT, f"{cl} [{pk(v)}]", "; ".join(probs))
     rep.floor("C06.h", 40)
+
+
+def _shared(ctx, rep, tier):
+    from .shared import delegate
+    delegate(ctx, rep, tier, "C17", ("C17.d",), "C06.i", "end(): the per-state end move is taken exactly as the machine's End transition prescribes and the reported code reflects the state reached",
+             where="CodegenCtx._generate_end_switch_body")
+    delegate(ctx, rep, tier, "C03", ("C03.c",), "C06.j", "string assignment / default templates copy exactly the literal's bytes (+NUL iff terminated) and store its length",
+             where="CodegenCtx._generate_set_string")
+
+
+_run0 = run
+
+
+def run(ctx, rep, tier):
+    _run0(ctx, rep, tier)
+    _shared(ctx, rep, tier)
